@@ -57,6 +57,7 @@ def descriptor(rec, k):
         "minmax_arg_order_observable": "minmax" in o["fl"],
         "literal_binop_raises": "constop" in o["fl"],
         "one_char_literal_ordered_against_bint": "chrbint" in o["fl"],
+        "empty_display_times_expression": "emptymul" in o["fl"],
         "has_class": "class" in tags,
         "has_closure": any(t.startswith("def:h") or t == "lambda" for t in tags),
     }
@@ -127,7 +128,7 @@ def module_source(m):
 
 
 _RE_CY_ERR = re.compile(r"\.py:(\d+):\d+: (.*)")
-_RE_CC_FN = re.compile(r"In function .__pyx_\w*?[_\d]f(\d+)\W")
+_RE_CC_FN = re.compile(r"In function .__pyx_\w*?[_\d]f(\d+)(?:_\w+)?\W")
 _RE_CC_LINE = re.compile(r"\.py:(\d+)")
 
 
@@ -343,7 +344,7 @@ def run(tier, seed):
                 desc.update({"expect": "compiles", "site": "", "expect_type": "", "stale_name_operand": False,
                              "class_scope_skipped": False, "class_bound_name_global_lookup": False,
                              "minmax_arg_order_observable": False, "literal_binop_raises": False,
-                             "one_char_literal_ordered_against_bint": False})
+                             "one_char_literal_ordered_against_bint": False, "empty_display_times_expression": False})
                 desc.update(lp.static_features(r["prog"]))
                 rep.disagree(desc, oc, {"source": r["source"], "stage": stage, "message": msg})
                 continue
